@@ -1,3 +1,4 @@
+//! whole
 //! Exhaustive sweep of the five public character predicates over all 1,114,112 scalar
 //! values, reported as maximal runs of code points on which the predicate is true
 //! (surrogates count as false: they are not `char`s).
